@@ -120,11 +120,12 @@ Proof. exact num_ok_sound. Qed.
 Print Assumptions C07_num_ok_sound.
 
 (** ... and the covariance is diagonal with entry (k, k) = 2 x weighted sample variance of
-    coordinate k within the conditioning-aware relative tolerance. *)
+    coordinate k within the conditioning-aware relative tolerance, whenever that variance is
+    defined and estimable in binary64 (allowance below 1). *)
 Theorem C07_num_ok_cov_sound :
   forall n ps i p ws k j row e,
     num_ok n ps = true -> nth_error ps i = Some p -> finite_weights p = Some ws ->
-    Quantile.var_defined (combine (nth 0 (q_cols p) []) ws) = true ->
+    Quantile.var_defined (combine (nth 0 (q_cols p) []) ws) = true -> Qle_bool 1 (cov_tol ws) = false ->
     nth_error (q_cov p) k = Some row -> nth_error row j = Some e ->
     exists c, e = Some c /\
       if (j =? k)%nat
